@@ -21,7 +21,9 @@ from lib.props.c08 import STRUCT
 
 # opcode numbers are read from the regenerated DS/Gen/Opcodes.lean
 def opcodes():
-    txt = open("/verif/lean/DS/Gen/Opcodes.lean").read()
+    from lib.common import LEAN
+    import os
+    txt = open(os.path.join(LEAN, "DS/Gen/Opcodes.lean")).read()
     return {m.group(1): int(m.group(2)) for m in re.finditer(r'\("(type\w+)", (\d+)\)', txt)}
 
 
